@@ -7,15 +7,15 @@ BASE = json.load(open("/root/.vp/BASELINE.json"))
 
 CHECKS = {
  "C17": dict(engine="schedsim", design="§3",
-   technique="deterministic simulation: real pipeline models driven under a simulated thread pool whose start/finish/yield decisions come from a seeded, replayable scheduler; list-model oracle over the recorded stage trace",
+   technique="deterministic simulation: real pipeline models driven under a simulated thread pool whose start/finish/yield/timeout decisions come from a seeded, replayable scheduler (completion orders, worker limits, failing branches, timeouts firing, overlapping forwards of one shared object); list-model oracle over the recorded stage trace",
    text="Seeded search over thread-pool schedules (start/finish interleavings under the worker limit, order of already-finished futures), injected branch failures and add/remove histories, on the real ParallelModel/Sequential/Branching/Feedback/MAC/Wyner-Ziv code with recording stub stages. A clean batch is evidence over the sampled schedules, not a proof; for <=4 branches every yield permutation is in practice reached (measured in the evidence).",
    note="Trusted: the simulated executor's fidelity to ThreadPoolExecutor/as_completed semantics, CPython Future, atomic branch bodies (no pre-emption inside a stage), the list-model oracle."),
  "C16": dict(engine="histsim", design="§5.1",
-   technique="deterministic simulation: seeded delivery layer (fragmenting, coalescing, reordering, interleaved compute/reset) in front of one long-lived metric object, checked operation by operation against a two-integer reference model",
+   technique="deterministic simulation: seeded delivery layer (fragmenting, coalescing, reordering, interleaved compute/reset) in front of one long-lived metric object (one-shot and rejected calls on the live object, aliased argument pairs, dtype and layout variation), checked operation by operation against a two-integer reference model",
    text="Seeded search over update/compute/reset histories and batch partitions of a data stream on the real BitErrorRate/BlockErrorRate objects (all aliases and registry names) with a reference counter; one-shot clauses (exact fraction, symmetry, zero-iff-equal, BER<=BLER<=min(1,B*BER), helper agreement, non-divisor rejection) are per-step checks in the same runs. Evidence over sampled histories, not a proof.",
    note="Trusted: the reference counter (two Python integers), float32 tolerance 2e-6 relative; nothing asserted about an object after a rejected call or about forward() touching accumulators."),
  "C12": dict(engine="rngsim", design="§6.2",
-   technique="deterministic simulation of the channel's fault process: simulator-owned random source (torch.manual_seed per run, replayable realisation); exact support invariants on every sample, exact-binomial tests on rates, symmetry and disjoint-pair independence with a 1e-9 per-run false-alarm bound",
+   technique="deterministic simulation of the channel's fault process: simulator-owned random source (torch.manual_seed per run, replayable realisation); exact support invariants on every sample, exact-binomial tests on rates, symmetry and disjoint-pair independence within a call and between consecutive calls, with a 1e-9 per-run false-alarm bound",
    text="Seeded realisations of BSC/BEC/Z over probabilities, alphabets, dtypes and shapes; support invariants are exact on every sample, distributional clauses are decided up to the stated error probability and the resolution ~1e6 symbols allow.",
    note="Trusted: torch's generator is the only random source; exact binomial tails from scipy; per-test level 5e-15."),
  "C07": dict(engine="rngsim", design="§6.1",
@@ -27,7 +27,7 @@ CHECKS = {
    text="Seeded realisations of Rayleigh/Rician/log-normal flat fading (generic and convenience classes) over coherence times incl. non-divisors, real/complex, 1-D..4-D shapes. Structure is exact on every case; E|h|^2, K-factor, independence across blocks/items and noise calibration against the faded signal are decided up to the stated error probability at ~1e6 blocks.",
    note="Trusted: torch's generator is the only random source; csi/noise supplied in the channel's (batch, flattened sequence) layout; no normalisation asserted for log-normal."),
  "C09": dict(engine="linksim", design="§4",
-   technique="deterministic simulation with fault injection on the link: the real ChannelCodeModel (encoder, modulator, constraint, demodulator, decoder) with a simulator-owned channel that places in-budget bit flips / symbol displacements from an explicit, replayable plan, plus the library's own BSC/AWGN under a seeded generator with post-hoc budget classification; oracle: delivered message == sent message on every in-budget run",
+   technique="deterministic simulation with fault injection on the link: the real ChannelCodeModel (encoder, modulator, constraint, demodulator, decoder) with a simulator-owned channel that places in-budget bit flips / symbol displacements from an explicit, replayable plan, plus the library's own BSC/AWGN under a seeded generator with post-hoc budget classification and the library's channels configured as ideal; earlier calls on the same chain (whose results the caller overwrites) precede the judged call; oracle: delivered message == sent message on every in-budget row",
    text="Seeded search over (code, decoder, modulation, layout, message, fault plan) with the harness-placed damage at weight exactly t and displacement up to 0.98*d_min/2, hard and soft paths. Evidence over the sampled fault sequences; small codes see every weight-<=t pattern only in the thorough tier and only as measured in the evidence.",
    note="Trusted: advertised d of the code object, harness d_min from the published constellation, TapModulator/TapDemodulator/FaultChannel harness stages, the narrow relaxations stated in DESIGN §4.4 (multi-block rows may be rejected; over-budget random realisations assert nothing)."),
  "C02": dict(engine="linksim", design="§4",
@@ -35,11 +35,11 @@ CHECKS = {
    text="Seeded search over (code, hard decoder, messages, flip patterns / received words) with a deterministic walk over messages and patterns for codes with n <= 15. Sampling, not the exhaustive sweep the quantifier text mentions; the evidence reports how many distinct patterns per small code the batch visited.",
    note="Trusted: advertised d; reference codebook enumerated by encoding all 2^k messages with the real encoder (k <= 12); one block per row."),
  "C05": dict(engine="histsim", design="§5.3",
-   technique="deterministic simulation of call histories: a seeded, replayable pre-history of mode toggles, train/eval forwards on differing batch shapes and resets drives one modulator/demodulator pair, then the post-reset eval-mode round trip through an ideal channel is compared with a reference model of each scheme's start-up loss; sequences walk every symbol and every ordered symbol pair",
+   technique="deterministic simulation of call histories: a seeded, replayable pre-history of mode toggles, train/eval forwards on differing batch shapes and resets drives one modulator/demodulator pair, optionally another frame is modulated in between, then the post-reset eval-mode round trip through an ideal channel is compared with a reference model of each scheme's start-up loss; sequences walk every symbol and every ordered symbol pair",
    text="Seeded search over (scheme, order, labeling, construction path, pre-history, layout, bit sequence). For memoryless schemes this degenerates to the zero-fault configuration of the link; for DPSK/OQPSK/pi4-QPSK the history is what makes the state matter. Evidence over sampled histories; all-symbol and all-pair sequences are exhaustive per case for orders <= 16.",
    note="Trusted: the 20-line reference of start-up loss (DPSK drops the reference symbol's bits; OQPSK delays Q by one symbol, first Q slot unspecified); nothing asserted about train-mode outputs or pre-history calls."),
  "C20": dict(engine="histsim", design="§5.2",
-   technique="deterministic simulation of a batching layer: a seeded, replayable history of calls on one shared component instance (singletons, permuted batches, (n,)/(B,n)/(B1,B2,n)/(B,b*n) layouts, repeats, interleaved fresh instances) checked with the answer-set rule — every successful evaluation of a sample must give the same answer whatever batch, position, layout, neighbours or call history; inputs cloned and compared",
+   technique="deterministic simulation of a batching layer: a seeded, replayable history of calls on one shared component instance (singletons, permuted batches, (n,)/(B,n)/(B1,B2,n)/(B,b*n) layouts, stride-0 batches, repeats, interleaved fresh instances, returned tensors overwritten by the caller) checked with the answer-set rule — every successful evaluation of a sample must give the same answer whatever batch, position, layout, neighbours or call history; inputs cloned and compared",
    text="Seeded search over (component, sample pool with special members, call history) across every encoder, hard/soft decoder, memoryless modulator/demodulator and per-item constraint. Evidence over the sampled histories; a layout the component rejects contributes nothing and is counted.",
    note="Trusted: the component's own answers are the only reference (no independent model needed); exact comparison for bit outputs, rtol 1e-4 for float outputs; float-path ties are not generated because torch kernels decide them by last-ulp rounding."),
 }
